@@ -10,7 +10,7 @@ SPEC = dict(
                 "feed close or a header arriving with 16 unread responses; after cancel or stop it is closed within two producer steps under "
                 "every failure pattern (refuted for the code before fix-c20-1: stop during a failing retrieval is never noticed), after feed "
                 "close within three producer steps not counting failing retrievals (a height already taken is still answered). The model is "
-                "re-validated on every run against the real Service.Subscribe on ~1200 generated schedules with 1-3 concurrent subscriptions "
+                "re-validated on every run against the real Service.Subscribe on ~900 generated schedules with 1-3 concurrent subscriptions "
                 "over real squares. Partial: 'promptly' is counted in producer steps, not wall time (a getAll call in flight is not "
                 "interrupted by the service stop); which ready case a Go select takes and data-race freedom are the runtime's; the "
                 "correctness of the blobs that getAll parses out of a square is C11's subject - here the response content is compared "
